@@ -89,7 +89,7 @@ def build_cli():
         env["RUSTFLAGS"] = "--cfg weechess_verif"
         r = subprocess.run(["cargo", "build", "--offline", "-q", "--release", "-p", "weechess_cli",
                             "--manifest-path", os.path.join(REPO, "Cargo.toml"), "--target-dir", tdir],
-                           env=env, capture_output=True, text=True)
+                           env=env, cwd=REPO, capture_output=True, text=True)
         if r.returncode != 0:
             sys.stderr.write(r.stderr[-4000:])
             tool_error("cli build failed")
